@@ -185,7 +185,7 @@ def gen_stack(rng):
     if any(w.startswith("normalize") for w in wrappers):
         for i in range(len(ops)):
             if ops[i] == "step" and rng.random() < 0.3:
-                ops.insert(i + 1, "orig")
+                ops.insert(i + 1, rng.choice(["orig", "orig", "normcall"]))
     return {"what": "vecenv", "kind": kind, "n_envs": n_envs, "wrappers": wrappers, "ops": ops,
             "n_stack": rng.randint(1, 4), "script_seed": rng.randint(0, 10**6),
             # coverage audit: VecNormalize with every flag combination, training toggled off, frame stack channel orders,
@@ -275,6 +275,16 @@ def run_vecenv(case):
                     if is_twin:
                         for inf in infos:
                             inf.clear()
+                elif op == "normcall":  # the public transforms applied to arrays the CALLER owns
+                    vn = [v for v in _chain(venv) if type(v).__name__ == "VecNormalize"][0]
+                    mine_o, mine_r = copy.deepcopy(vn.get_original_obs()), vn.get_original_reward().copy()
+                    snap_o, snap_r = copy.deepcopy(mine_o), mine_r.copy()
+                    res = {"n_obs": vn.normalize_obs(mine_o), "n_rew": vn.normalize_reward(mine_r)}
+                    res["u_obs"] = vn.unnormalize_obs(res["n_obs"])
+                    res["u_rew"] = vn.unnormalize_reward(res["n_rew"])
+                    if not _same({"o": mine_o, "r": mine_r}, {"o": snap_o, "r": snap_r}):
+                        problems.append(("oracle-argument-modified", f"op {k} normcall: normalize_obs / normalize_reward modified the arrays they were handed"))
+                    holder.keep(f"op{k}.normcall.args", {"o": mine_o, "r": mine_r})
                 else:  # orig
                     vn = [v for v in _chain(venv) if type(v).__name__ == "VecNormalize"][0]
                     res = {"orig_obs": vn.get_original_obs(), "orig_rew": vn.get_original_reward()}
